@@ -808,3 +808,7 @@ def _check_pop(case):
         if res.stage2:
             case.labels.append('stage2')
         _report(case, res)
+
+
+RULE += (' Classes and clauses added in later rounds of the seeded-change protocol (DESIGN 9.4) are named in REQUIRED '
+         'and in seeded/HISTORY.json; the evidence counts every one of them under classes.')
